@@ -585,5 +585,42 @@ theorem harmless_of_harmlessB (cfg : Cfg Cls) (t : List Char) (h : harmlessB cfg
   rw [htake, hdrop, hm] at this
   simpa using this
 
+/-! ## small generic facts used for the placeholder theorem -/
+
+theorem feedAllWith_append' (h : Mem → Sym → Except Err (Mem × Bool)) : ∀ (a b : List Char) (m : Mem),
+    feedAllWith h (a ++ b) m = (match feedAllWith h a m with | .ok m' => feedAllWith h b m' | .error e => .error e)
+  | [], b, m => by simp [feedAllWith]
+  | c :: a, b, m => by
+    simp only [List.cons_append, feedAllWith]
+    cases feedWith h m c with
+    | error e => rfl
+    | ok m' => exact feedAllWith_append' h a b m'
+
+theorem replaceGo_id (pat rep : List Char) (c : Char) (cs : List Char) (hpat : pat = c :: cs) :
+    ∀ (f : Nat) (t : List Char), c ∉ t → Py.replaceGo pat rep f t = t
+  | 0, t, _ => by simp [Py.replaceGo]
+  | f + 1, [], _ => by simp [Py.replaceGo]
+  | f + 1, d :: r, h => by
+    simp only [List.mem_cons, not_or] at h
+    have : pat.isPrefixOf (d :: r) = false := by
+      subst hpat
+      simp [List.isPrefixOf, h.1]
+    simp only [Py.replaceGo, this, Bool.false_eq_true, if_false]
+    rw [replaceGo_id pat rep c cs hpat f r h.2]
+
+/-- a replacement whose pattern starts with a character that does not occur changes nothing -/
+theorem preWith_id : ∀ (chain : List (List Char × List Char)) (t : List Char),
+    (∀ pr ∈ chain, ∃ c cs, pr.1 = c :: cs ∧ c ∉ t) → preWith chain t = t
+  | [], t, _ => by simp [preWith]
+  | pr :: chain, t, h => by
+    obtain ⟨c, cs, hpat, hc⟩ := h pr (List.mem_cons_self ..)
+    have h1 : Py.replace pr.1 pr.2 t = t := by
+      unfold Py.replace
+      split
+      · rfl
+      · exact replaceGo_id pr.1 pr.2 c cs hpat _ t hc
+    have := preWith_id chain t fun pr' hpr' => h pr' (List.mem_cons_of_mem _ hpr')
+    simpa [preWith, h1] using this
+
 end Sim
 end Lex
